@@ -77,10 +77,33 @@ def run(ctx):
             x.rules = [(k, (v + "0" if k in ("min", "max") and "." in v else v)) for k, v in x.rules]
             if x.kind == "I" and rng.random() < 0.2 and any(k == "max" for k, _ in x.rules):
                 x.rules = [(k, (v + ".50" if k == "max" else v)) for k, v in x.rules]
+            # rules that say nothing (const: false, nullable: false) are still part of the text
+            if x.kind in "SIFB" and rng.random() < 0.15 and not any(k in ("const", "enum", "nullable") for k, _ in x.rules):
+                x.rules.insert(rng.randrange(len(x.rules) + 1), rng.choice([("const", "false"), ("nullable", "false"), ("const", "true")]))
         text = J.print_schema(w, rng)
         cases.append((text, [], J.expected_ast(w)))
         if len(J.all_nodes(w)) >= 3 and sum(len(getattr(x, "printed_rules", [])) for x in J.all_nodes(w)) >= 2:
             ctx.nontrivial.add(text)
+    # type shortcuts in value position: one name, several names, a name repeated - the or rule lists the alternatives exactly as written
+    tys = [["@cat", "{}"], ["@dog", "1"], ["@fish", '"f"'], ["@k", '"kk"']]
+    for _ in range(200 if quick else 4000):
+        props, ch = [], []
+        for key in rng.sample(["a", "b", "c", "d", "e"], rng.randint(1, 4)):
+            names = [rng.choice(["@cat", "@dog", "@fish"]) for _ in range(rng.choice([1, 1, 2, 2, 3, 4]))]
+            opt = rng.random() < 0.3
+            v = " | ".join(names)
+            props.append('  "%s": %s' % (key, v) + (" // {optional: true}" if opt else ""))
+            if len(names) == 1:
+                node = {"tt": "reference", "st": names[0], "key": key, "v": v, "rules": [["type", {"tt": "reference", "src": 2, "v": names[0]}]]}
+            else:
+                node = {"tt": "reference", "st": "mixed", "key": key, "v": v, "rules": [["or", {"tt": "array", "src": 2, "items": [{"tt": "string", "src": 2, "v": nm} for nm in names]}]]}
+            if opt:
+                node["rules"].append(["optional", {"tt": "boolean", "src": 1, "v": "true"}])
+            ch.append(node)
+        text = "{\n" + ",\n".join(p if " // " not in p else p for p in props) + "\n}"
+        # an annotation must follow the comma
+        text = "{\n" + "\n".join((p.split(" // ")[0] + ("," if i < len(props) - 1 else "") + ((" // " + p.split(" // ")[1]) if " // " in p else "")) for i, p in enumerate(props)) + "\n}"
+        cases.append((text, tys, {"tt": "object", "st": "object", "ch": ch}))
     cases += FIXED
     lines = [json.dumps({"schema": t, "types": ty, "ops": [["check"], ["ast"]]}) for t, ty, _ in cases]
     outs = vc.impl_parallel(["schema"], lines)
